@@ -143,6 +143,16 @@ def distribute_ifs(v):
             i = ifs[0]
             _, c, a, b = flat[i][1]
             return mk_if(c, mk_s(flat[:i] + [("h", a)] + flat[i + 1 :]), mk_s(flat[:i] + [("h", b)] + flat[i + 1 :]))
+    # f(a if c else b) -> f(a) if c else f(b)   (one conditional positional argument)
+    if v[0] in ("call", "mcall"):
+        ai = 2 if v[0] == "call" else 3
+        args = v[ai]
+        ifs = [i for i, a in enumerate(args) if isinstance(a, tuple) and a and a[0] == "if"]
+        if len(ifs) == 1 and not any(isinstance(x, tuple) and x and x[0] == "if" for _, x in v[ai + 1]):
+            i = ifs[0]
+            _, c, a, b = args[i]
+            mk = lambda x: v[:ai] + (args[:i] + (x,) + args[i + 1 :],) + v[ai + 1 :]  # noqa: E731
+            return mk_if(c, mk(a), mk(b))
     return v
 
 
@@ -719,6 +729,9 @@ def mk_vcall(target, args, kwargs):
 
 
 def mk_sub(base, key):
+    # X[a:][k] is X[a + k] (a, k >= 0)
+    if base[0] == "slice" and len(base) == 4 and base[3] == NONE and base[2][0] == "c" and isinstance(base[2][1], int) and base[2][1] >= 0 and key[0] == "c" and isinstance(key[1], int) and not isinstance(key[1], bool) and key[1] >= 0:
+        return mk_sub(base[1], C(base[2][1] + key[1]))
     # <f(x) for x in X>[k] is f(X[k]) for an unfiltered one-item comprehension
     if base[0] == "comp" and key[0] == "c" and isinstance(key[1], int) and not base[4] and len(base[3]) == 1 and base[3][0][0] not in ("spread", "when") and (key[1] >= 0 or not has(base[3][0], "idx")) and not has(base[3][0], "first") and not has(base[3][0], "cidx"):
         return subst_bv(base[3][0], base[1], mk_sub(base[2], key), key[1])
@@ -1566,6 +1579,9 @@ class AV:
                     return ("list", base[1][lo[1]: hi[1]])
                 if lo == C(0):
                     lo = NONE
+                # X[a:][b:] is X[a + b:]
+                if base[0] == "slice" and base[3] == NONE and hi == NONE and base[2][0] == "c" and isinstance(base[2][1], int) and base[2][1] >= 0 and lo[0] == "c" and isinstance(lo[1], int) and lo[1] >= 0:
+                    return ("slice", base[1], C(base[2][1] + lo[1]), NONE)
                 return ("slice", base, lo, hi)
             return mk_sub(base, self._ev(n.slice, fr))
         if isinstance(n, (ast.ListComp, ast.GeneratorExp, ast.SetComp)):
